@@ -261,8 +261,26 @@ async fn run_schedule(c: &Value, blocks: &mut HashMap<String, Vec<Bytes>>, btxs:
         let (mut builder, height) = new_node().await;
         let txs = build_txs(&builder, b).await;
         btxs.insert(b.to_string(), txs.clone());
-        match prepare(&mut builder, b, &txs, height).await {
-            Ok(txs) => {
+        // the honest part is what an honest proposer builds; a faulty one appends a transfer with a nonce gap
+        let mut honest = b.clone();
+        honest["bad"] = json!(false);
+        match prepare(&mut builder, &honest, &txs, height).await {
+            Ok(mut txs) => {
+                if b["bad"].as_bool().unwrap_or(false) {
+                    let gapped = builder
+                        .checked_tx_builder()
+                        .with_signer(ALICE.clone())
+                        .with_nonce(7)
+                        .with_action(Transfer {
+                            to: astria_address(&[0x31; 20]),
+                            amount: 1,
+                            asset: nria().into(),
+                            fee_asset: nria().into(),
+                        })
+                        .build()
+                        .await;
+                    txs.push(gapped.encoded_bytes().clone());
+                }
                 blocks.insert(b.to_string(), txs);
             }
             Err(e) => {
@@ -301,8 +319,13 @@ async fn run_schedule(c: &Value, blocks: &mut HashMap<String, Vec<Bytes>>, btxs:
             }
             "process" => {
                 let storage = node.storage();
-                // an unacceptable proposal is refused; the schedule goes on
-                let _ = node.app.process_proposal(process_req(b, blocks[&b.to_string()].clone(), height), storage).await;
+                // an unacceptable proposal is refused; the schedule goes on.  The verdict must not depend on what this
+                // node saw before.
+                let verdict = node.app.process_proposal(process_req(b, blocks[&b.to_string()].clone(), height), storage).await;
+                if verdict.is_ok() != st["ok"].as_bool().unwrap() {
+                    mism.push(json!({"sig": format!("abci:process-verdict-differs:expected={}", if st["ok"].as_bool().unwrap() { "accept" } else { "reject" }),
+                                     "detail": {"step": k, "hist": hist, "error": verdict.err().map(|e| format!("{e:#}").chars().take(200).collect::<String>())}}));
+                }
             }
             "restart" => {
                 let storage = node.storage();
